@@ -1,5 +1,148 @@
-"""Self-tests of the checkers (thorough tier): filled in later."""
+"""Self-test of the checkers (thorough tier) - both directions, in memory, on the *current* /repo sources.
+
+ must fire  : (a) the corpus of single-point mutants (sa/selftest_corpus.json: mutants that the repository's 180 tests do not
+              notice and that break the property; addressed structurally, see sa/mutate.py) and (b) the seeded changes under
+              /verif/seeded (written by independent sub-agents) - the property's rules must report an unlisted finding on each;
+ must stay
+ silent     : the behaviour-preserving source transformations of sa/refactor.py - no finding, no analysis error.
+
+A disagreement is a defect of the *checker*; it is reported as ANALYSIS-ERROR (exit 2), never as a violation of the property.
+A corpus entry whose target construct no longer exists in /repo is counted as skipped.
+"""
+import importlib
+import json
+import os
+import subprocess
+import tempfile
+from concurrent.futures import ProcessPoolExecutor
+from typing import Dict, List, Tuple
+
+from . import mutate, refactor, report
+from .model import AnalysisError, Program, read_yaml_sources
+
+HERE = os.path.dirname(os.path.abspath(__file__))
+VERIF = os.path.dirname(HERE)
+CORPUS = os.path.join(HERE, 'selftest_corpus.json')
+SEEDED = os.path.join(VERIF, 'seeded')
 
 
-def run_for_property(prop, P):
-    return {'mutants': 0, 'refactorings': 0, 'failed': []}
+def _analyse(prop: str, sources: Dict[str, str]) -> Tuple[str, List[str]]:
+    """('fired' | 'silent' | 'ae', details) of the property's rules on an in-memory variant"""
+    known = report.load_known()
+    try:
+        P = Program(sources, read_yaml_sources())
+        mod = importlib.import_module('sa.rules.' + prop.lower())
+        ctx = report.Context(prop, P, 'quick')
+        mod.run(ctx)
+    except AnalysisError as e:
+        return 'ae', [str(e)[:200]]
+    except Exception as e:          # a crash of the checker on a variant is a checker defect too
+        return 'ae', ['internal error %r' % e]
+    fs = [f for f in ctx.findings() if report.match_known(f, known) is None]
+    return ('fired' if fs else 'silent'), ['%s %s' % (f.rule, f.construct) for f in fs][:4]
+
+
+def _apply_patch(sources: Dict[str, str], patch_path: str):
+    with tempfile.TemporaryDirectory(prefix='sa-selftest.') as d:
+        os.makedirs(os.path.join(d, 'yatiml'))
+        for mod, text in sources.items():
+            fn = '__init__.py' if mod == 'yatiml' else mod.split('.', 1)[1] + '.py'
+            with open(os.path.join(d, 'yatiml', fn), 'w', encoding='utf-8') as fh:
+                fh.write(text)
+        r = subprocess.run(['patch', '-s', '-p1', '--no-backup-if-mismatch', '-i', patch_path], cwd=d, capture_output=True, text=True)
+        if r.returncode != 0:
+            return None
+        out = {}
+        for mod in sources:
+            fn = '__init__.py' if mod == 'yatiml' else mod.split('.', 1)[1] + '.py'
+            with open(os.path.join(d, 'yatiml', fn), encoding='utf-8') as fh:
+                out[mod] = fh.read()
+        return out
+
+
+def _job(args):
+    kind, ident, payload, prop, sources = args
+    try:
+        if kind == 'mutant':
+            new = mutate.apply(sources[payload['module']], payload)
+            if new is None:
+                return kind, ident, 'skipped', ['target construct not found']
+            variant = dict(sources)
+            variant[payload['module']] = new
+        elif kind == 'seed':
+            variant = _apply_patch(sources, payload)
+            if variant is None:
+                return kind, ident, 'skipped', ['patch does not apply to the current tree']
+        else:
+            variant = refactor.apply(payload, sources)
+    except Exception as e:
+        return kind, ident, 'skipped', ['could not build the variant: %r' % e]
+    st, det = _analyse(prop, variant)
+    return kind, ident, st, det
+
+
+def load_corpus() -> List[dict]:
+    if not os.path.exists(CORPUS):
+        return []
+    with open(CORPUS) as fh:
+        return json.load(fh)['must_fire']
+
+
+def seeds_for(prop: str) -> List[Tuple[str, str]]:
+    out = []
+    if not os.path.isdir(SEEDED):
+        return out
+    for name in sorted(os.listdir(SEEDED)):
+        mp = os.path.join(SEEDED, name, 'meta.json')
+        pp = os.path.join(SEEDED, name, 'patch.diff')
+        if not (os.path.exists(mp) and os.path.exists(pp)):
+            continue
+        with open(mp) as fh:
+            meta = json.load(fh)
+        if prop in meta.get('detected_by', {}):
+            out.append((name, pp))
+    return out
+
+
+def run_for_property(prop: str, P, jobs: int = 16) -> dict:
+    sources = {n: m.text for n, m in P.modules.items() if n == 'yatiml' or n.startswith('yatiml.')}
+    work = []
+    for d in load_corpus():
+        if prop in d['props']:
+            work.append(('mutant', '%s:%s:%s:%s#%d' % (d['module'], d['fn'], d['op'], d['src'][:50], d['nth']), d, prop, sources))
+    for name, pp in seeds_for(prop):
+        work.append(('seed', name, pp, prop, sources))
+    for op in refactor.OPERATORS:
+        work.append(('refactoring', op, op, prop, sources))
+    res = []
+    if work:
+        with ProcessPoolExecutor(min(jobs, len(work))) as ex:
+            res = list(ex.map(_job, work, chunksize=2))
+    failed = []
+    out = {'mutants': 0, 'mutants_fired': 0, 'seeds': 0, 'seeds_fired': 0, 'refactorings': 0, 'refactorings_silent': 0,
+           'skipped': [], 'failed': failed, 'sample_fired': []}
+    for kind, ident, st, det in res:
+        if st == 'skipped':
+            out['skipped'].append('%s %s: %s' % (kind, ident, det[0]))
+            continue
+        if kind == 'mutant':
+            out['mutants'] += 1
+            if st == 'fired':
+                out['mutants_fired'] += 1
+                if len(out['sample_fired']) < 6:
+                    out['sample_fired'].append('%s -> %s' % (ident, det[0]))
+            else:
+                failed.append('mutant not reported (%s): %s %s' % (st, ident, det[:1]))
+        elif kind == 'seed':
+            out['seeds'] += 1
+            if st == 'fired':
+                out['seeds_fired'] += 1
+            else:
+                failed.append('seeded change not reported (%s): %s %s' % (st, ident, det[:1]))
+        else:
+            out['refactorings'] += 1
+            if st == 'silent':
+                out['refactorings_silent'] += 1
+            else:
+                failed.append('false alarm on behaviour-preserving transformation %s (%s): %s' % (ident, st, det[:2]))
+    return out
